@@ -318,51 +318,58 @@ func extAtomicCAS(fr *frame, a []value) value {
 	return false
 }
 
-// --- strings.Builder { addr *Builder; buf []byte }
+// --- strings.Builder { addr *Builder; buf []byte }: every method is an intrinsic, so
+// the accumulated text is kept as one string value (possibly a rope) in buf[0].
 
 func builderBuf(a []value) *value {
 	b := a[0].(*value)
+	if b == nil {
+		panic(targetPanic{iface{}})
+	}
 	st := (*b).(structure)
 	return &st[1]
 }
 
-func builderAppend(fr *frame, a []value, bs []value) {
+func builderGet(a []value) value {
 	p := builderBuf(a)
 	cur, _ := (*p).([]value)
-	out := make([]value, 0, len(cur)+len(bs))
-	out = append(out, cur...)
-	out = append(out, bs...)
-	fr.i.storeCell(p, out)
+	if len(cur) == 1 && isStr(cur[0]) {
+		return cur[0]
+	}
+	if len(cur) == 0 {
+		return ""
+	}
+	return mkStr(append([]value(nil), cur...))
+}
+
+func builderAppend(fr *frame, a []value, s value) {
+	acc := fr.i.strConcat(builderGet(a), s)
+	fr.i.storeCell(builderBuf(a), []value{acc})
 }
 
 func extBuilderWriteString(fr *frame, a []value) value {
-	bs := fr.i.strBytes(a[1])
-	builderAppend(fr, a, bs)
-	return tuple{len(bs), iface{}}
+	builderAppend(fr, a, a[1])
+	return tuple{fr.i.strLen(a[1]), iface{}}
 }
 func extBuilderWriteByte(fr *frame, a []value) value {
-	builderAppend(fr, a, []value{a[1]})
+	builderAppend(fr, a, mkStr([]value{a[1]}))
 	return iface{}
 }
 func extBuilderWriteRune(fr *frame, a []value) value {
 	bs := fr.i.encodeRune(a[1])
-	builderAppend(fr, a, bs)
+	builderAppend(fr, a, mkStr(bs))
 	return tuple{len(bs), iface{}}
 }
 func extBuilderWrite(fr *frame, a []value) value {
 	bs := a[1].([]value)
-	builderAppend(fr, a, bs)
+	builderAppend(fr, a, mkStr(append([]value(nil), bs...)))
 	return tuple{len(bs), iface{}}
 }
 func extBuilderString(fr *frame, a []value) value {
-	p := builderBuf(a)
-	cur, _ := (*p).([]value)
-	return mkStr(append([]value(nil), cur...))
+	return builderGet(a)
 }
 func extBuilderLen(fr *frame, a []value) value {
-	p := builderBuf(a)
-	cur, _ := (*p).([]value)
-	return len(cur)
+	return fr.i.strLen(builderGet(a))
 }
 func extBuilderReset(fr *frame, a []value) value {
 	fr.i.storeCell(builderBuf(a), []value(nil))
